@@ -202,8 +202,13 @@ pub fn run_worker(check: &dyn Check, args: WorkerArgs) -> i32 {
             ctx.strict = args.strict;
             let r = guard("other", || check.run(tier, pidx, &input, &mut ctx));
             if let Err(p) = r {
-                emit(json!({"t":"harness_panic","loc":p.loc,"msg":p.msg,"where":format!("replay {}", path)}));
-                return 4;
+                if p.in_code_under_test() {
+                    // an observation the oracle makes (a read-back, a getter) unwound inside the repository's code
+                    ctx.fail(format!("panic-in-code-under-test@{}", p.loc), format!("{} panicked while the check observed the case: {}", p.loc, p.msg.trim()));
+                } else {
+                    emit(json!({"t":"harness_panic","loc":p.loc,"msg":p.msg,"where":format!("replay {}", path)}));
+                    return 4;
+                }
             }
             account(check, &findings, &mut st, &ctx, args.strict, REPLAY_PHASE, i as u64, &input, &format!("replay:{}", path), None, Some((tier, pidx)));
             *st.per_phase.entry("replays".to_string()).or_insert(0) += 1;
@@ -320,8 +325,14 @@ fn one_case(
     ctx.strict = args.strict;
     let r = guard("other", || check.run(args.tier, pidx, input, &mut ctx));
     if let Err(p) = r {
-        emit(json!({"t":"harness_panic","loc":p.loc,"msg":p.msg,"where":format!("phase {} index {} input {}", phase.name, index, check.render(args.tier, pidx, input))}));
-        return Some(4);
+        if p.in_code_under_test() {
+            // an observation the oracle makes (a read-back, a getter) unwound inside the repository's code: the property's
+            // observable was not delivered, which is a failure of the case, not of the harness
+            ctx.fail(format!("panic-in-code-under-test@{}", p.loc), format!("{} panicked while the check observed the case: {}", p.loc, p.msg.trim()));
+        } else {
+            emit(json!({"t":"harness_panic","loc":p.loc,"msg":p.msg,"where":format!("phase {} index {} input {}", phase.name, index, check.render(args.tier, pidx, input))}));
+            return Some(4);
+        }
     }
     *st.per_phase.entry(phase.name.clone()).or_insert(0) += 1;
     account(check, findings, st, &ctx, args.strict, pidx as u64, index, input, &phase.name, shrink.map(|s| (s, args.tier, pidx)), Some((args.tier, pidx)));
